@@ -31,6 +31,8 @@ CLAIMS = {
             NOTE_ENGINE),
     "C07": ("Theorems C07_*: (1) a crash while Merge runs - the marker is absent, the merge directory may hold anything - from any reachable database state opens to the surviving log's mapping (all of it when nothing was cut) and the merge directory is ignored; (2) a crash at any time after the marker is written opens by adopting the merge to exactly the mapping before the crash; (3) for EVERY directory state an interrupted adoption can leave (files j..n-1 still in the merge directory for any j, any subset of the originals removed before the first rename, hint moved or not) Open completes the adoption to the same mapping and the same directory layout as the uninterrupted adoption; (4) later Opens agree. The check takes a crash image at every file-system event of Merge, Close and the adopting Open of generated histories, opens each twice with the real engine and the model and applies the acknowledged-mapping oracle",
             NOTE_ENGINE + "; atomic file-system calls; process crash (no byte loss) for the adoption part"),
+    "C20": ("Theorems C20_*: for every source configuration (both I/O types), every history (rotations, batches, merges, adopted merges with hint file, restarts) and every configuration used for the copy, the directory Backup produces opens as a database with exactly the mapping the source had at that time and all invariants (so its further behaviour follows from C06_step); the source keeps its mapping, its relation to a pending merge and goes on; the physical-size invariant this rests on holds in every reachable state; correspondence run with backups at random points (incl. values ending in zero bytes, a large write right after an MMap backup, refreshing one backup directory around an adopted merge of uniform-size records), every copy opened, inspected and written to",
+            NOTE_ENGINE + "; directory lock not modelled here (C16); refreshing a non-empty destination is outside the theorems"),
     "C05": ("Theorems C05_*: a batch behaves as a private copy of the map installed at Commit (read-your-writes, in-order application, put-delete-put ends present), Commit succeeds and marks the batch committed, a committed batch rejects Put/Delete/Get/Commit without changing the database - for every database state, every sequence of batch operations incl. mid-batch flushes; correspondence run on batch-heavy scripts with a layered reference oracle",
             NOTE_ENGINE + "; the staging hash index is abstracted to key lookup; a fatal double unlock is observable only in the correspondence run"),
     "C11": ("Coq theorems (props/C11.v, closed under the global context) for every history of a data file, every record length and every block offset, about an executable model that is run against package datafile on generated histories on every check (bytes, positions, sizes, scans, random reads compared)",
